@@ -3,4 +3,4 @@ Require Import ExtrOcamlBasic.
 Extraction Language OCaml.
 Extraction "model.ml" validate pipeline accepts render_msg go_quirks no_quirks
   coercible_all coercible offending known_name std std_strict weak weak_strict
-  jdepth print_type.
+  jdepth print_type value_to_json.
